@@ -145,6 +145,7 @@ func init() {
 				case 4:
 					sc.Text = "\t" + sc.Text + "  \n\n"
 				}
+				sc.Expected = "" // the text was edited after printing (a final comment without line feed is not even valid): judge the tree parsed from these very bytes
 			}
 			sc.Kind = skStatic
 			// ---- numscript check
@@ -196,7 +197,7 @@ func init() {
 			ci.Class = ro.Class
 			sort.Strings(printed)
 			ci.Observed = fmt.Sprintf("check exit=%d printed=%d | lib: %s", chk.exit, len(printed), shortObserved(ro))
-			ci.Extra = map[string]any{"check_stdout": chk.stdout}
+			ci.extra(map[string]any{"check_stdout": chk.stdout})
 			ci.Coq = fmt.Sprintf("(mk_c20case %s %d %s %s %s)", ccase, chk.exit, coqList(printed), icase, coqList(chans))
 			c.count(fmt.Sprintf("check_exit:%d", chk.exit))
 			c.add(ci)
